@@ -339,68 +339,258 @@ theorem newH_append (b0 b : B) (conn : String) (l : List Out) (h : b.out = b0.ou
     newH b0 b conn = (l.filter (fun o => o.conn == conn && !o.poll)).map (·.pkt) := by
   simp [newH, h]
 
+/-! ### `B.publish` taken apart: the checks that refuse, and what happens to an accepted PUBLISH -/
+
+/-- `readLoop`: a v5 QoS>0 PUBLISH consumes one unit of the receive quota -/
+def pubCli (c : Cli) (r : PubReq) : Cli := if c.v == 5 && r.qos > 0 then { c with quota := c.quota - 1 } else c
+
+/-- the topic-alias step of `B.publish`: the effective topic name and the updated alias table, or the reason code
+    of the refusal -/
+def aliasRes (cfg : Cfg) (c : Cli) (r : PubReq) : Except Nat (String × Cli) :=
+  if c.v == 5 then
+    match r.alias with
+    | some a =>
+      if a == 0 || a > cfg.aliasMax then .error 0x94
+      else if r.topic == "" then
+        match c.aliasIn.find? (fun (p : Nat × String) => p.1 == a) with
+        | some (_, t) => if t == "" then .error 0x94 else .ok (t, c)
+        | none => .error 0x94
+      else .ok (r.topic, { c with aliasIn := (a, r.topic) :: c.aliasIn.filter (fun (p : Nat × String) => p.1 != a) })
+    | none => if r.topic == "" then .error 0x82 else .ok (r.topic, c)
+  else if r.topic == "" then .error 0x82 else .ok (r.topic, c)
+
+/-- the message built from an accepted PUBLISH (`r.topic` already resolved) -/
+def pubMsg (r : PubReq) : Msg :=
+  { topic := r.topic, tag := r.tag, plen := r.plen, qos := r.qos, retained := r.retain, dup := r.dup,
+    expiry := match r.expiry with | some e => e | none => 0 }
+
+/-- the retained-message step of `B.publish` (skipped for a duplicate QoS 2 PUBLISH) -/
+def B.pubRetain (b : B) (r : PubReq) (dupl : Bool) : B :=
+  if r.retain && !dupl then
+    (if r.plen == 0 then { b with retained := b.retained.filter (·.1 != r.topic) }
+     else { b with retained := (r.topic, pubMsg r) :: b.retained.filter (·.1 != r.topic) })
+  else b
+
+/-- the acknowledgement step of `B.publish` -/
+def B.pubAck (b : B) (c : Cli) (r : PubReq) (matched : Bool) : B :=
+  let code := if c.v == 5 && !matched then 0x10 else 0
+  let b := if r.qos == 1 then b.emit r.conn false (.puback r.pid code)
+           else if r.qos == 2 then b.emit r.conn false (.pubrec r.pid code) else b
+  if r.qos == 1 && c.v == 5 then
+    match b.cli? r.conn with
+    | some c' => b.setCli { c' with quota := min (c'.quota + 1) b.cfg.recvMax }
+    | none => b
+  else b
+
+/-- an accepted PUBLISH (`r.topic` resolved, `c` and `s` the connection and its session): inbound QoS 2 id store,
+    retained store, `deliverMessage` unless it is a QoS 2 duplicate, acknowledgement -/
+def B.publishTail (b : B) (c : Cli) (r : PubReq) (s : Sess) : B :=
+  let dupl := r.qos == 2 && s.unack.contains r.pid
+  let s := if r.qos == 2 && !dupl then { s with unack := s.unack ++ [r.pid] } else s
+  let b := (b.setSess s).pubRetain r dupl
+  let bm := if !dupl then b.deliverMsg c.cid (pubMsg r) r.hints r.rapHint else (b, false)
+  bm.1.pubAck c r bm.2
+
+/-- `B.publish`, restated with the named pieces (definitional) -/
+theorem publish_eq (b : B) (r : PubReq) :
+    b.publish r =
+      match b.cli? r.conn with
+      | none => b
+      | some c =>
+        if c.v == 5 && r.alias == some 0 then b.kick r.conn (some 0x94)
+        else if r.topic == "" && (c.v != 5 || r.alias.isNone) then b.kick r.conn (some 0x82)
+        else if c.v == 5 && r.qos > 0 && c.quota == 0 then b.kick r.conn (some 0x93)
+        else
+          let b1 := b.setCli (pubCli c r)
+          if (pubCli c r).v == 5 && b1.cfg.maxPacket != 0 && r.size > b1.cfg.maxPacket then b1.kick r.conn (some 0x95)
+          else if !b1.cfg.retainAvail && r.retain then b1.kick r.conn (some 0x9A)
+          else
+            match aliasRes b1.cfg (pubCli c r) r with
+            | .error code => b1.kick r.conn (some code)
+            | .ok (topic, c2) =>
+              match (b1.setCli c2).sess? c2.cid with
+              | none => b1.setCli c2
+              | some s => (b1.setCli c2).publishTail c2 { r with topic := topic } s := by
+  rfl
+
+/-- the refusal conditions of `B.publish` that concern the topic name and the topic alias do not apply: a v5 alias
+    is neither 0 nor above the advertised `topic_alias_maximum`; an empty topic name comes only on a v5 connection,
+    with an alias that is bound (to a non-empty name) -/
+structure TopicOk (b : B) (c : Cli) (r : PubReq) : Prop where
+  alias : ∀ a, c.v = 5 → r.alias = some a → a ≠ 0 ∧ a ≤ b.cfg.aliasMax
+  topic : r.topic = "" → c.v = 5 ∧ ∃ a p, r.alias = some a ∧ c.aliasIn.find? (fun p => p.1 == a) = some p ∧ p.2 ≠ ""
+
+theorem pubCli_v (c : Cli) (r : PubReq) : (pubCli c r).v = c.v := by unfold pubCli; split <;> rfl
+theorem pubCli_cid (c : Cli) (r : PubReq) : (pubCli c r).cid = c.cid := by unfold pubCli; split <;> rfl
+theorem pubCli_conn (c : Cli) (r : PubReq) : (pubCli c r).conn = c.conn := by unfold pubCli; split <;> rfl
+theorem pubCli_aliasIn (c : Cli) (r : PubReq) : (pubCli c r).aliasIn = c.aliasIn := by unfold pubCli; split <;> rfl
+
+/-- whatever the alias step answers, it is the same connection -/
+theorem aliasRes_ok {cfg : Cfg} {c : Cli} {r : PubReq} {t : String} {c2 : Cli} (h : aliasRes cfg c r = .ok (t, c2)) :
+    c2.conn = c.conn ∧ c2.cid = c.cid ∧ c2.v = c.v ∧ c2.used = c.used ∧ c2.maxInflight = c.maxInflight ∧ t ≠ "" := by
+  unfold aliasRes at h
+  split at h
+  · split at h
+    · split at h
+      · cases h
+      · split at h
+        · next htop =>
+          split at h
+          · split at h
+            · cases h
+            · next hne =>
+              simp only [Except.ok.injEq, Prod.mk.injEq] at h
+              obtain ⟨rfl, rfl⟩ := h
+              exact ⟨rfl, rfl, rfl, rfl, rfl, by simpa using hne⟩
+          · cases h
+        · next htop =>
+          simp only [Except.ok.injEq, Prod.mk.injEq] at h
+          obtain ⟨rfl, rfl⟩ := h
+          exact ⟨rfl, rfl, rfl, rfl, rfl, by simpa using htop⟩
+    · split at h
+      · cases h
+      · next htop =>
+        simp only [Except.ok.injEq, Prod.mk.injEq] at h
+        obtain ⟨rfl, rfl⟩ := h
+        exact ⟨rfl, rfl, rfl, rfl, rfl, by simpa using htop⟩
+  · split at h
+    · cases h
+    · next htop =>
+      simp only [Except.ok.injEq, Prod.mk.injEq] at h
+      obtain ⟨rfl, rfl⟩ := h
+      exact ⟨rfl, rfl, rfl, rfl, rfl, by simpa using htop⟩
+
+/-- under `TopicOk` the alias step succeeds -/
+theorem aliasRes_of_topicOk {b : B} {c : Cli} {r : PubReq} (h : TopicOk b c r) :
+    ∃ t c2, aliasRes b.cfg (pubCli c r) r = .ok (t, c2) := by
+  unfold aliasRes
+  rw [pubCli_v, pubCli_aliasIn]
+  by_cases hv : c.v = 5
+  · have hv' : (c.v == 5) = true := by simpa using hv
+    rw [if_pos hv']
+    cases ha : r.alias with
+    | none =>
+      have : ¬ r.topic = "" := fun ht => by
+        obtain ⟨_, a, p, ha', _⟩ := h.topic ht
+        rw [ha] at ha'; cases ha'
+      simp [this]
+    | some a =>
+      obtain ⟨h0, hmax⟩ := h.alias a hv ha
+      have h1 : (a == 0 || decide (a > b.cfg.aliasMax)) = false := by
+        simp [h0, Nat.not_lt.2 hmax]
+      simp only [h1, Bool.false_eq_true, if_false]
+      by_cases ht : r.topic = ""
+      · obtain ⟨_, a', p, ha', hf, hp⟩ := h.topic ht
+        rw [ha] at ha'; cases ha'
+        have ht' : (r.topic == "") = true := by simpa using ht
+        rw [if_pos ht', hf]
+        obtain ⟨p1, p2⟩ := p
+        have hp' : (p2 == "") = false := by simpa using hp
+        simp [hp']
+      · have ht' : (r.topic == "") = false := by simpa using ht
+        simp [ht']
+  · have hv' : (c.v == 5) = false := by simpa using hv
+    have : ¬ r.topic = "" := fun ht => hv (h.topic ht).1
+    simp [hv', this]
+
+/-- an accepted PUBLISH: the connection exists and has a session, and no refusal applies — `B.publish` then is the
+    quota step, the alias step and `publishTail` -/
+theorem publish_accepted (b : B) (r : PubReq) (c : Cli) (s : Sess)
+    (hc : b.cli? r.conn = some c) (hs : b.sess? c.cid = some s)
+    (htopic : TopicOk b c r)
+    (hquota : ¬ (c.v = 5 ∧ r.qos > 0 ∧ c.quota = 0))
+    (hsize : ¬ (c.v = 5 ∧ b.cfg.maxPacket ≠ 0 ∧ r.size > b.cfg.maxPacket))
+    (hret : ¬ (b.cfg.retainAvail = false ∧ r.retain = true)) :
+    ∃ t c2, aliasRes b.cfg (pubCli c r) r = .ok (t, c2) ∧
+      b.publish r = ((b.setCli (pubCli c r)).setCli c2).publishTail c2 { r with topic := t } s := by
+  obtain ⟨t, c2, hres⟩ := aliasRes_of_topicOk htopic
+  refine ⟨t, c2, hres, ?_⟩
+  have h0 : (c.v == 5 && r.alias == some 0) = false := by
+    rw [Bool.eq_false_iff]; intro h
+    simp only [Bool.and_eq_true, beq_iff_eq] at h
+    exact (htopic.alias 0 h.1 h.2).1 rfl
+  have h0' : (r.topic == "" && (c.v != 5 || r.alias.isNone)) = false := by
+    rw [Bool.eq_false_iff]; intro h
+    simp only [Bool.and_eq_true, beq_iff_eq, Bool.or_eq_true, bne_iff_ne, ne_eq] at h
+    obtain ⟨hv, a, p, ha, _⟩ := htopic.topic h.1
+    rcases h.2 with h2 | h2
+    · exact h2 hv
+    · rw [ha] at h2; cases h2
+  have h1 : (c.v == 5 && decide (r.qos > 0) && c.quota == 0) = false := by
+    rw [Bool.eq_false_iff]; intro h; apply hquota
+    simpa [Bool.and_eq_true, beq_iff_eq, decide_eq_true_eq, and_assoc] using h
+  have h2 : ((pubCli c r).v == 5 && (b.setCli (pubCli c r)).cfg.maxPacket != 0 &&
+      decide (r.size > (b.setCli (pubCli c r)).cfg.maxPacket)) = false := by
+    rw [Bool.eq_false_iff]; intro h; apply hsize
+    rw [pubCli_v] at h
+    simpa [Bool.and_eq_true, beq_iff_eq, decide_eq_true_eq, and_assoc] using h
+  have h3 : (!(b.setCli (pubCli c r)).cfg.retainAvail && r.retain) = false := by
+    rw [Bool.eq_false_iff]; intro h; apply hret
+    simpa using h
+  have hcid : c2.cid = c.cid := by rw [(aliasRes_ok hres).2.1, pubCli_cid]
+  have hss : ((b.setCli (pubCli c r)).setCli c2).sess? c2.cid = some s := by rw [hcid]; exact hs
+  rw [publish_eq]
+  simp only [hc, h0, h0', h1, h2, h3, Bool.false_eq_true, if_false]
+  have hres' : aliasRes (b.setCli (pubCli c r)).cfg (pubCli c r) r = .ok (t, c2) := hres
+  rw [hres']
+  simp only [hss]
+
+theorem pubRetain_out (b : B) (r : PubReq) (dupl : Bool) : (b.pubRetain r dupl).out = b.out := by
+  unfold B.pubRetain
+  split
+  · split <;> rfl
+  · rfl
+
+/-- the acknowledgement step appends exactly the PUBACK / PUBREC -/
+theorem pubAck_out (b : B) (c : Cli) (r : PubReq) (matched : Bool) :
+    (b.pubAck c r matched).out = b.out ++
+      (if r.qos = 1 then [{ conn := r.conn, poll := false, pkt := Pkt.puback r.pid (if c.v == 5 && !matched then 0x10 else 0) }]
+       else if r.qos = 2 then [{ conn := r.conn, poll := false, pkt := Pkt.pubrec r.pid (if c.v == 5 && !matched then 0x10 else 0) }]
+       else []) := by
+  unfold B.pubAck
+  extract_lets code b4
+  have hout4 : b4.out = b.out ++
+      (if r.qos = 1 then [{ conn := r.conn, poll := false, pkt := Pkt.puback r.pid code }]
+       else if r.qos = 2 then [{ conn := r.conn, poll := false, pkt := Pkt.pubrec r.pid code }] else []) := by
+    simp only [b4]
+    by_cases q1 : r.qos = 1
+    · simp [q1]
+    · by_cases q2 : r.qos = 2 <;> simp [q1, q2]
+  rw [← hout4]
+  split
+  · split <;> rfl
+  · rfl
+
+/-- an accepted PUBLISH appends to the output exactly its acknowledgement -/
+theorem publishTail_out (b : B) (c : Cli) (r : PubReq) (s : Sess) :
+    ∃ code, (b.publishTail c r s).out = b.out ++
+      (if r.qos = 1 then [{ conn := r.conn, poll := false, pkt := Pkt.puback r.pid code }]
+       else if r.qos = 2 then [{ conn := r.conn, poll := false, pkt := Pkt.pubrec r.pid code }] else []) := by
+  unfold B.publishTail
+  extract_lets dupl s1 b1 bm
+  refine ⟨if c.v == 5 && !bm.2 then 0x10 else 0, ?_⟩
+  rw [pubAck_out]
+  congr 1
+  simp only [bm]
+  split
+  · rw [deliverMsg_out]; simp only [b1]; rw [pubRetain_out]; rfl
+  · simp only [b1]; rw [pubRetain_out]; rfl
+
 theorem publish_ack (b : B) (r : PubReq) (c : Cli) (s : Sess)
     (hc : b.cli? r.conn = some c) (hs : b.sess? c.cid = some s)
+    (htopic : TopicOk b c r)
     (hquota : ¬ (c.v = 5 ∧ r.qos > 0 ∧ c.quota = 0))
     (hsize : ¬ (c.v = 5 ∧ b.cfg.maxPacket ≠ 0 ∧ r.size > b.cfg.maxPacket))
     (hret : ¬ (b.cfg.retainAvail = false ∧ r.retain = true)) :
     ∃ code, newH b (b.publish r) r.conn =
       (if r.qos = 1 then [Pkt.puback r.pid code] else if r.qos = 2 then [Pkt.pubrec r.pid code] else []) := by
-  have h1 : (c.v == 5 && decide (r.qos > 0) && c.quota == 0) = false := by
-    rw [Bool.eq_false_iff]; intro h; apply hquota
-    simpa [Bool.and_eq_true, beq_iff_eq, decide_eq_true_eq, and_assoc] using h
-  unfold B.publish
-  simp -zeta only [hc, h1]
-  extract_lets c1 b1 m
-  have hv : c1.v = c.v := by simp only [c1]; split <;> rfl
-  have hcid : c1.cid = c.cid := by simp only [c1]; split <;> rfl
-  have hcfg : b1.cfg = b.cfg := rfl
-  have hss : b1.sess? c.cid = some s := hs
-  have hout1 : b1.out = b.out := rfl
-  have h2 : (c.v == 5 && b.cfg.maxPacket != 0 && decide (r.size > b.cfg.maxPacket)) = false := by
-    rw [Bool.eq_false_iff]; intro h; apply hsize
-    simpa [Bool.and_eq_true, beq_iff_eq, decide_eq_true_eq, and_assoc] using h
-  have h3 : (!b.cfg.retainAvail && r.retain) = false := by
-    rw [Bool.eq_false_iff]; intro h; apply hret
-    simpa using h
-  simp -zeta only [hv, hcid, hcfg, hss, h2, h3]
-  extract_lets dupl s1 b2 b3 code b4
-  have hout3 : b3.out = b.out := by
-    simp only [b3]; split
-    · split <;> rfl
-    · rfl
-  have hp : (if (!dupl) = true then b3.deliverMsg c.cid m r.hints r.rapHint else (b3, false)).fst.out = b.out := by
-    split
-    · rw [deliverMsg_out, hout3]
-    · exact hout3
-  have hout4 : b4.out = b.out ++
-      (if r.qos = 1 then [{ conn := r.conn, poll := false, pkt := Pkt.puback r.pid code }]
-       else if r.qos = 2 then [{ conn := r.conn, poll := false, pkt := Pkt.pubrec r.pid code }] else []) := by
-    simp only [b4]
-    split
-    · next h =>
-      have q1 : r.qos = 1 := by simpa using h
-      rw [emit_out, hp]; first | rfl | simp [q1]
-    · next h =>
-      have q1 : ¬ r.qos = 1 := by simpa using h
-      split
-      · next h' =>
-        have q2 : r.qos = 2 := by simpa using h'
-        rw [emit_out, hp]; first | rfl | simp [q2]
-      · next h' =>
-        have q2 : ¬ r.qos = 2 := by simpa using h'
-        rw [hp]; first | rfl | simp [q2]
+  obtain ⟨t, c2, _, heq⟩ := publish_accepted b r c s hc hs htopic hquota hsize hret
+  obtain ⟨code, hout⟩ := publishTail_out ((b.setCli (pubCli c r)).setCli c2) c2 { r with topic := t } s
   refine ⟨code, ?_⟩
-  rw [newH_append b _ r.conn _ (l := if r.qos = 1 then [{ conn := r.conn, poll := false, pkt := Pkt.puback r.pid code }]
-       else if r.qos = 2 then [{ conn := r.conn, poll := false, pkt := Pkt.pubrec r.pid code }] else [])]
-  · by_cases q1 : r.qos = 1
-    · simp [q1]
-    · by_cases q2 : r.qos = 2 <;> simp [q1, q2]
-  · rw [← hout4]
-    simp only [Bool.false_eq_true, if_false]
-    split
-    · split <;> rfl
-    · rfl
+  rw [heq, newH_append b _ r.conn _ hout]
+  by_cases q1 : r.qos = 1
+  · simp [q1]
+  · by_cases q2 : r.qos = 2 <;> simp [q1, q2]
 
 /-! ### per-publisher order -/
 
